@@ -193,9 +193,16 @@ class Plan(object):
         if not self.dogroup:
             return
         clauses = {"do_with": [], "do_per": [], "do_cum": []}
+        # field names recur from one `do` statement to the next (w3 here and w3 in a later statement, with another
+        # literal): every act keeps its own literals
+        fname, used = {}, set()
+        for k, case, dos, exps in self.dogroup:
+            n = k % 11 if (k % 11) not in used else k
+            used.add(n)
+            fname[k] = n
         for k, case, dos, exps in self.dogroup:
             for c in dos:
-                clauses[c].append("%s%d %s" % (c[3], k, case["t"]))
+                clauses[c].append("%s%d %s" % (c[3], fname[k], case["t"]))
         s = "do vf lit as g%d" % self.ndo
         self.ndo += 1
         for c, word in (("do_with", "with"), ("do_per", "per"), ("do_cum", "cum")):
@@ -204,7 +211,7 @@ class Plan(object):
         self.drv.append(s)
         for k, case, dos, exps in self.dogroup:
             for c in dos:
-                self._item(ctx=c, k=k, case=case, exp=exps[c], field="%s%d" % (c[3], k), stmt=s, share=None)
+                self._item(ctx=c, k=k, case=case, exp=exps[c], field="%s%d" % (c[3], fname[k]), stmt=s, share=None)
         self.dogroup = []
 
     def add_need(self, case, e):
